@@ -182,7 +182,9 @@ def step_shapes(a, tier):
     if tier == "quick":
         if a not in FULL:
             return [(B - LB, 1)]
-        return [(0, 0), (B - 1, 1), (B - LB, 0), (B - 1, 2)]
+        # (1, 2B-1): partial block buffered + rest of it + one whole block in ONE update (added after the seeded change
+        # C04-sha2-update-else-if was missed by the quick tier: whole blocks after a top-up were never hashed)
+        return [(0, 0), (B - 1, 1), (B - LB, 0), (B - 1, 2), (1, 2 * B - 1)]
     rs = [0, 1, B - LB - 1, B - LB, B // 2, B - 1] if a in FULL else [0, B - LB]
     out = set()
     for r in rs:
